@@ -206,7 +206,7 @@ fn anchor_hook(len: usize, drawn: usize) -> usize {
     let mode = harness(|h| h.anchor_mode);
     let pos = match mode {
         AnchorMode::Off => return drawn,
-        AnchorMode::Force => 1 + kernel::choose(len - 1, "anchor"),
+        AnchorMode::Force => 1 + kernel::choose_side(len - 1, "anchor"),
         AnchorMode::Observe => {
             // record-and-replay of an uncontrolled source: the draw goes on the tape as an observed input
             // (replay forces the recorded value)
